@@ -433,6 +433,18 @@ func TranslatePathsD(paths PathsD, dx, dy float64) PathsD {
 }
 
 func TrimCollinear64(path Path64, isOpen bool) Path64 {
+	// removing a spike can leave the vertices on either side of it collinear,
+	// so the scan is repeated until a pass removes nothing
+	for {
+		trimmed := trimCollinear64Pass(path, isOpen)
+		if len(trimmed) == 0 || len(trimmed) == len(path) {
+			return trimmed
+		}
+		path = trimmed
+	}
+}
+
+func trimCollinear64Pass(path Path64, isOpen bool) Path64 {
 	l := len(path)
 	i := 0
 
